@@ -39,9 +39,10 @@ def perms : List Nat → List (List Nat)
 def Env.allPeers (e : Env) : List Nat := (List.range e.np).map (· + 1)
 
 /-- the iteration orders of the peer map worth distinguishing: one, unless some
-peer advertises the all-zero hash (the sentinel of the mismatch test) -/
+peer sends the all-zero hash as previous header (the sentinel of resolveConflict's baseline
+test; the mismatch test no longer has one) -/
 def Env.orders (e : Env) : List (List Nat) :=
-  if e.resps.any (fun r => r.2.hashes.contains 0 || r.2.prev == 0) then perms e.allPeers else [e.allPeers]
+  if e.resps.any (fun r => r.2.prev == 0) then perms e.allPeers else [e.allPeers]
 
 def Env.net (e : Env) (pick : Nat) (order : List Nat := e.allPeers) : Net :=
   { peers := order
@@ -329,7 +330,7 @@ def runCase : CaseFn := fun c => Id.run do
           let appended := d.fs.drop oldFs.length
           if !r.concl H appended (peersOfBans d.bans) then
             let shape := if r.shapeEarlyReturn then "detectBadPeers-early-return"
-                         else if !r.noZero then "zero-hash-sentinel" else "honest-wins"
+                         else "honest-wins"
             let what := if appended != chainFrom H r.tip r.truthSlice then "a false filter header was committed (or none)"
                         else "a liar was not banned or an honest peer was"
             out := out.push (fail shape s!"an honest peer answered and every false value was provably inconsistent, yet {what}; true={r.truthSlice}")
